@@ -41,6 +41,9 @@ type bounds struct {
 	rect  s2.Rect
 	cap   s2.Cap
 	cells []s2.CellID
+	// granularity of the region's own representation in radians (a cap stores a squared chord length, which
+	// resolves its angular radius only to ~2e-15/sin(radius)); added to the representation-level limit
+	granularity float64
 }
 
 // checkProbe asserts that one contained point lies in every bound.
@@ -81,7 +84,7 @@ func checkProbeEdge(c *mon.Case, what string, b bounds, p s2.Point, kind string,
 		}
 		class := "beyond-representation"
 		switch {
-		case ex <= 4e-15:
+		case ex <= 4e-15+b.granularity:
 			class = "representation-level"
 		case antiNorm < 0.5 && antiNorm >= 2e-15 && ex <= 1e-14/antiNorm: // (below 2e-15 the bounder itself switches to the full rectangle)
 			class = "nearly-antipodal-edge"
@@ -232,18 +235,18 @@ func loopCase(c *mon.Case) {
 	}
 	mkLoop := func() *s2.Loop { return s2.LoopFromPoints(append([]s2.Point(nil), vs...)) }
 	l := mkLoop()
-	variants := map[string]bounds{"Loop": {l.RectBound(), l.CapBound(), l.CellUnionBound()}}
+	variants := map[string]bounds{"Loop": {rect: l.RectBound(), cap: l.CapBound(), cells: l.CellUnionBound()}}
 	poly := s2.PolygonFromOrientedLoops([]*s2.Loop{mkLoop()})
-	variants["Polygon"] = bounds{poly.RectBound(), poly.CapBound(), poly.CellUnionBound()}
+	variants["Polygon"] = bounds{rect: poly.RectBound(), cap: poly.CapBound(), cells: poly.CellUnionBound()}
 	// the bound of a decoded (compressed when possible) polygon
 	if r.Intn(3) == 0 {
 		var buf bytes.Buffer
 		if poly.Encode(&buf) == nil {
 			var q s2.Polygon
 			if q.Decode(bytes.NewReader(buf.Bytes())) == nil && q.NumLoops() == 1 {
-				variants["DecodedPolygon"] = bounds{q.RectBound(), q.CapBound(), nil}
+				variants["DecodedPolygon"] = bounds{rect: q.RectBound(), cap: q.CapBound(), cells: nil}
 				dl := q.Loop(0)
-				variants["DecodedLoop"] = bounds{dl.RectBound(), dl.CapBound(), nil}
+				variants["DecodedLoop"] = bounds{rect: dl.RectBound(), cap: dl.CapBound(), cells: nil}
 			}
 		}
 	}
@@ -251,7 +254,7 @@ func loopCase(c *mon.Case) {
 	idx := s2.NewShapeIndex()
 	idx.Add(mkLoop())
 	reg := idx.Region()
-	variants["ShapeIndexRegion"] = bounds{reg.RectBound(), reg.CapBound(), reg.CellUnionBound()}
+	variants["ShapeIndexRegion"] = bounds{rect: reg.RectBound(), cap: reg.CapBound(), cells: reg.CellUnionBound()}
 
 	var probes []s2.Point
 	var kinds []string
@@ -322,7 +325,7 @@ func polylineCase(c *mon.Case) {
 		vs = append(vs, nx)
 	}
 	pl := s2.Polyline(vs)
-	b := bounds{pl.RectBound(), pl.CapBound(), pl.CellUnionBound()}
+	b := bounds{rect: pl.RectBound(), cap: pl.CapBound(), cells: pl.CellUnionBound()}
 	det := func() any { return map[string]any{"n": n, "vertices": gen.HexAll(vs...)} }
 	if c.I < 3 {
 		c.Sample(det())
@@ -355,7 +358,7 @@ func simpleCase(c *mon.Case) {
 		default:
 			cp = s2.CapFromCenterAngle(ctr, s1.Angle(r.Float64()*math.Pi))
 		}
-		b := bounds{cp.RectBound(), cp.CapBound(), cp.CellUnionBound()}
+		b := bounds{rect: cp.RectBound(), cap: cp.CapBound(), cells: cp.CellUnionBound(), granularity: math.Min(1e-7, 2e-15/math.Max(math.Sin(cp.Radius().Radians()), 1e-9))}
 		det := func() any {
 			return map[string]any{"cap_center": gen.Hex(cp.Center()), "cap_radius": cp.Radius().Radians()}
 		}
@@ -407,7 +410,7 @@ func simpleCase(c *mon.Case) {
 		if width > math.Pi {
 			c.Count("rect.wide", 1)
 		}
-		b := bounds{rc.RectBound(), rc.CapBound(), rc.CellUnionBound()}
+		b := bounds{rect: rc.RectBound(), cap: rc.CapBound(), cells: rc.CellUnionBound()}
 		det := func() any {
 			return map[string]any{"rect": fmt.Sprintf("lat[%x,%x] lng[%x,%x]", rc.Lat.Lo, rc.Lat.Hi, rc.Lng.Lo, rc.Lng.Hi), "lng_width": width}
 		}
@@ -443,7 +446,7 @@ func simpleCase(c *mon.Case) {
 		if r.Intn(3) == 0 {
 			cell = s2.CellFromCellID(s2.CellFromPoint(gen.Special(r)).ID().Parent(r.Intn(31)))
 		}
-		b := bounds{cell.RectBound(), cell.CapBound(), cell.CellUnionBound()}
+		b := bounds{rect: cell.RectBound(), cap: cell.CapBound(), cells: cell.CellUnionBound()}
 		det := func() any { return map[string]any{"cell": cell.ID().ToToken()} }
 		for k := 0; k < 4; k++ {
 			checkProbe(c, "Cell", b, cell.Vertex(k), "vertex", det)
@@ -457,7 +460,7 @@ func simpleCase(c *mon.Case) {
 		if len(cu) == 0 {
 			return
 		}
-		b := bounds{cu.RectBound(), cu.CapBound(), cu.CellUnionBound()}
+		b := bounds{rect: cu.RectBound(), cap: cu.CapBound(), cells: cu.CellUnionBound()}
 		det := func() any {
 			var t []string
 			for _, id := range cu {
@@ -585,7 +588,7 @@ func hullCase(c *mon.Case) {
 	// the query's cap bound contains every input
 	cb := q.CapBound()
 	for _, p := range pts {
-		checkProbe(c, "ConvexHullQuery", bounds{s2.FullRect(), cb, nil}, p, "input-point", det)
+		checkProbe(c, "ConvexHullQuery", bounds{rect: s2.FullRect(), cap: cb, cells: nil}, p, "input-point", det)
 	}
 }
 
